@@ -77,6 +77,27 @@ DivFam == LET x == XAbs IN
 Impls == {"member", "base", "bmi2"}
 Unred == LET p == QMod IN { p, Add(p, One), Sub(Pow2(383), One), Pow2(383), Add(Pow2(383), One), Sub(Pow2(384), One), Sub(Pow2(384), p), Add(Pow2(383), ShiftR(p, 1)),
                           Add(ShiftR(p, 1), Pow2(383)), Sub(Add(p, p), One), Add(p, p), Sub(p, One), One, Zero }
+\* ---- Montgomery-reduction inputs at a carry boundary -------------------------------------------------------------------------------
+\* The reduction works row by row: row i adds u_i p 2^(64 i) (u_i chosen to clear word i) and hands a carry word into word i + 6, which
+\* nothing has touched before.  For a target row the input's word i + 6 is SET so that word plus carry is exactly 2^64 (all ones after
+\* the first of two carry contributions, wrapping on the second), or one off on either side: the place where an implementation that keeps the
+\* carries of a row in separate flags / chains must merge them.  The rows are simulated on exact integers (the algorithm, not any back end).
+W64 == Pow2(64)
+SeedF == IF "SEED" \in DOMAIN IOEnv THEN atoi(IOEnv.SEED) ELSE 1
+Rnd(k) == ModExp(FromNat(5), FromNat(1000003 * (SeedF % 2000) + 7919 * k), QMod)
+WordAt(v, j) == ModPow2(ShiftR(v, 64 * j), 64)
+SetWord(v, j, x) == Add(Sub(v, ShiftL(WordAt(v, j), 64 * j)), ShiftL(x, 64 * j))
+RedcRowsBefore(t0, p, invw, i) == FoldLeft(LAMBDA t, j : Add(t, ShiftL(Mul(ModPow2(Mul(WordAt(t, j - 1), invw), 64), p), 64 * (j - 1))), t0, [j \in 1..i |-> j])
+CarryBoundary(t0, p, invw, i, d) ==
+  LET t == RedcRowsBefore(t0, p, invw, i)
+      u == ModPow2(Mul(WordAt(t, i), invw), 64)
+      s == Add(ModPow2(t, 64 * (i + 6)), ShiftL(Mul(u, p), 64 * i))
+      c == ShiftR(s, 64 * (i + 6))                                         \* everything row i hands into word i + 6
+      want == ModPow2(Sub(Add(Add(W64, W64), FromNat(d)), Add(c, One)), 64)  \* 2^64 - c + (d - 1), d in 0..2  (mod 2^64)
+  IN SetWord(t0, i + 6, want)
+CarryBoundaryFam(p, invw) ==
+  { CarryBoundary(Add(ModPow2(Mul(Rnd(300 + k), Rnd(310 + k)), 384), ShiftL(ModPow2(Rnd(320 + k), 60 + 64 * 5), 384)), p, invw, i, d)
+    : i \in 0..4, d \in 0..2, k \in 1..(IF Tier = "quick" THEN 2 ELSE 6) }
 RawCases ==
   LET p   == QMod
       inv == Sub(Pow2(384), ModInv(ModN(p, Pow2(384)), Pow2(384)))   \* -p^-1 mod 2^384 (2^384 is not prime: see note)
@@ -87,6 +108,7 @@ RawCases ==
                 \* words 6..11 all ones below p*2^384 is impossible (p's top word is small): use the largest value with ones in words 6..10
                 Add(Mul(Sub(Pow2(320), One), Pow2(384)), Sub(Pow2(384), One)) }
               \cup { Mul(x[1], x[2]) : x \in (BWCore(p, 48) \X BWCore(p, 48)) }
+              \cup { w \in CarryBoundaryFam(p, ModPow2(inv, 64)) : Lt(w, Mul(p, Pow2(384))) }
   IN SetToSeq({ [op |-> o, impl |-> im, a |-> LE(x[1], 48), b |-> LE(x[2], 48), alias |-> al, src |-> "gen"] :
                 o \in {"raw.add", "raw.sub"}, im \in Impls, x \in RawFam \X RawFam, al \in {0, 1} })
      \o SetToSeq({ [op |-> "raw.shl1", impl |-> im, a |-> LE(x, 48), alias |-> al, src |-> "gen"] : im \in Impls, x \in RawFam \cup fam, al \in {0, 1} })
